@@ -285,6 +285,22 @@ def encodeGuardsWrites (pre body : List Step) : Bool :=
   let printed := ((body.filter (fun s => s.kind == .write)).map (·.what)).filter (· != "")
   !checked.isEmpty && printed.all (fun e => checked.contains e)
 
+/-- the steps that run while the working directory is switched (`with chdir(output): …`) -/
+def insideChdir : List Step → Bool → List Step
+  | [], _ => []
+  | s :: r, inside =>
+    if s.kind == .chdirEnter then insideChdir r true
+    else if s.kind == .chdirExit then insideChdir r false
+    else if inside then s :: insideChdir r inside
+    else insideChdir r inside
+
+/-- Only the parse runs with the working directory switched: everything that builds a path from `output` (the
+module → file map, `mkdir`, `open`) is evaluated in the caller's working directory, so a RELATIVE output path
+means what the caller meant. -/
+def onlyParseInsideChdir (pre loopBody post : List Step) : Bool :=
+  (insideChdir pre false).all (fun s => s.what == "parser.parse") && !(insideChdir pre false).isEmpty &&
+  (loopBody ++ post).all (fun s => s.kind != .chdirEnter && s.kind != .osChdir)
+
 def keyUnderOutput (e : String) : Bool := e == "output" || e == "output.joinpath(*name)"
 
 def EncodableAll (env : Env) : Prop := ∀ m ∈ env.mods, env.encodable m.2 = true
